@@ -773,7 +773,11 @@ class MatchFn(Fn):
                 tb = ["var", "ret"]
                 xb = ["self", [V(a) for a in args]]
                 self.selfcalls += 1
-                if base in (INT, STR) and rng.random() < 0.5:
+                if rng.random() < 0.3:
+                    # the value of the recursive call is not used: its type is the function's result type only because it IS that function
+                    lit, xl = {"int": ("7", LIT["int"]), "string": ('"s"', LIT["str"]), "bool": ("true", LIT["bool"])}[base[1]]
+                    b, xb, tb = "frt.Snd (%s, %s)" % (inner, lit), call("frt.Snd", ["tuple", [xb, xl]]), base
+                elif base in (INT, STR) and rng.random() < 0.5:
                     # two recursive calls under + : both operands have one type (int or string, + itself does not say which), which is
                     # also the type of the sum - only the recursion mentions the result here
                     b, xb = "(%s) + (%s)" % (inner, inner), call("same+", xb, ["self", [V(a) for a in args]])
